@@ -17,7 +17,7 @@ Histories are not a shape; decided are necessary conditions of the mechanism:
                 (extend(context.into_dependencies()) precedes the `?` on the rule result)         [T6]
 Not decided: equality of output trees over histories, dependency completeness of the bundler.
 """
-from .. import thir, mir
+from .. import thir, mir, interproc, guards
 from ..thir import callee_of
 from ..facts import norm_path
 
@@ -51,14 +51,20 @@ def hash_rule(R, ctx):
             R.ob(rid, "process|reset-on-change", False, ctx.where(fn), "result of has_configuration_changed not branched on")
     h = lib.fn(WT + "::has_configuration_changed")
     if R.require(rid, "anchor:has_configuration_changed", h is not None, "", "not found"):
-        a = ctx.an.fa(h["path"])
-        tv = [c for c in thir.calls(h) if c.get("fname") in ("to_vec", "to_string", "to_writer") and "serde_json" in (c.get("fn") or "")]
-        ok = bool(tv) and ("#param", 1) in a.origins(tv[0]["args"][0])
-        R.ob(rid, "fingerprint|whole-configuration", ok, ctx.where(h), "hash input = serde_json::to_vec(config): %s" % ok)
-        hx = [c for c in thir.calls(h) if "xxh" in (c.get("fname") or "") or "hash" in (c.get("fname") or "")]
+        # the configuration is parameter #1; helpers that receive it are followed
+        ser = lambda c: c.get("fname") in ("to_vec", "to_string", "to_writer", "to_value") and "serde_json" in (c.get("fn") or "")
+        tv = list(interproc.tainted_calls(ctx, h, {1}, ser))
+        ok = bool(tv)
+        R.ob(rid, "fingerprint|whole-configuration", ok, ctx.where(h), "hash input = serde_json serialisation of the whole `config` argument: %s" % ok)
+        sc = list(interproc.scope_calls(lib, h))
+        hx = [c for f, c in sc if "xxh" in (c.get("fname") or "") or "hash" in (c.get("fname") or "")]
         R.ob(rid, "fingerprint|hashed", bool(hx), ctx.where(h), "hash function applied")
-        rep = [c for c in thir.calls(h) if c.get("fname") == "replace"]
-        R.ob(rid, "fingerprint|stored", bool(rep), ctx.where(h), "new fingerprint replaces last_configuration_hash")
+        fa = ctx.an.fa(h["path"])
+        rep = [c for c in thir.calls(h) if c.get("fname") in ("replace", "insert", "get_or_insert", "get_or_insert_with") and c["args"]
+               and any(o[0] == WT for o in fa.origins(c["args"][0]))]
+        asg = [n for n in thir.walk(thir.body_of(h)) if n.get("k") == "Assign" and any(o[0] == WT for o in fa.origins(n["l"]))]
+        stores_always = [c for c in rep if c.get("fname") in ("replace", "insert")] or asg
+        R.ob(rid, "fingerprint|stored", bool(stores_always), ctx.where(h), "the new fingerprint replaces the stored one on every pass (Option::replace / assignment): %s" % bool(stores_always))
 
 
 def notify(R, ctx):
@@ -75,23 +81,29 @@ def notify(R, ctx):
         ok = bool(upd) and all(cfg.must_pass(upd, r) for r in cfg.returns())
         R.ob(rid, "%s|updates-dependents" % name, ok, ctx.where(fn), "every return passes update_external_dependencies: %s" % ok)
     fn = lib.fn(WT + "::remove_source")
-    if fn is not None:
+    cf = lib.fn(WT + "::clean_files")
+    if fn is not None and R.require(rid, "anchor:clean_files", cf is not None, "", "clean_files not found"):
+        # the deletion queue = the WorkerTree field whose elements clean_files hands to Resources::remove
+        cfa = ctx.an.fa(cf["path"])
+        queue = set()
+        for c in thir.calls(cf):
+            if c.get("fname") == "remove" and "Resources" in (c.get("fn") or "") + (callee_of(c) or ""):
+                for a_ in c["args"][1:]:
+                    queue |= {o[1] for o in cfa.origins(a_) if o[0] == WT}
+        if not R.require(rid, "anchor:deletion-queue", len(queue) >= 1, ctx.where(cf), "field(s) drained into Resources::remove: %s" % sorted(queue)):
+            return
         a = ctx.an.fa(fn["path"])
+        M = guards.Mentions(ctx.an)
         removes = [c for c in thir.calls(fn) if c.get("fname") == "remove_node"]
-        R.require(rid, "remove_source|anchor:remove_node", len(removes) >= 2, ctx.where(fn), "%d remove_node calls (file arm + directory arm)" % len(removes))
-        pushes = [c for c in thir.calls(fn) if c.get("fname") == "push" and any(o[1] == "remove_files" for o in a.origins(c["args"][0]) if o[0] != "#param")]
-        R.ob(rid, "remove_source|queues-output-in-each-arm", len(pushes) >= len(removes) and len(pushes) >= 2, ctx.where(fn),
-             "%d pushes onto remove_files for %d node removals" % (len(pushes), len(removes)))
-        for c in pushes:
-            guarded = False
-            p = a.parent.get(id(c)); child = c
-            while p is not None:
-                if p.get("k") == "If" and any(y is child for y in thir.walk(p["then"])):
-                    cond = p["cond"]
-                    if cond.get("k") == "Unary" and cond["op"] == "Not" and any(x.get("fname") == "is_in_place" for x in thir.walk(cond) if x.get("k") == "Call"):
-                        guarded = True
-                child = p; p = a.parent.get(id(p))
-            R.ob(rid, "remove_source|queue-unless-in-place", guarded, ctx.where(fn, c.get("ln")), "push guarded by !is_in_place(): %s" % guarded)
+        R.require(rid, "remove_source|anchor:remove_node", len(removes) >= 1, ctx.where(fn), "%d remove_node calls" % len(removes))
+        pushes = [c for c in thir.calls(fn) if c.get("fname") in ("push", "extend", "insert", "push_back", "append") and c["args"]
+                  and any(o[0] == WT and o[1] in queue for o in a.origins(c["args"][0]))]
+        R.ob(rid, "remove_source|queues-output-in-each-arm", len(pushes) >= len(removes) and len(pushes) >= 1, ctx.where(fn),
+             "%d pushes onto the deletion queue %s for %d node removals" % (len(pushes), sorted(queue), len(removes)))
+        inplace = guards.is_call_named("is_in_place")
+        for i, c in enumerate(pushes):
+            guarded = M.guarded(a, c, inplace) or any(M.mentions(a, x, inplace) for x in c["args"][1:])
+            R.ob(rid, "remove_source|queue-unless-in-place", guarded, ctx.where(fn, c.get("ln")), "queued output depends on is_in_place(): %s" % guarded)
 
 
 def clean(R, ctx):
